@@ -248,6 +248,23 @@ func checkC16(ctx *Ctx, c *Case) error {
 		if !bytes.Equal(b1, b2) {
 			return fmt.Errorf("the two resolver paths disagree on deterministic bytes")
 		}
+		// a caller-supplied file registry whose descriptor for this name differs
+		// from the global one (one extra field): the message must be built from
+		// the descriptor that registry returns, on every call
+		if cf, cmd := customFilesFor(m.ProtoReflect().Descriptor()); cf != nil {
+			u4, err := anyutil.Unpack(a, cf, &protoregistry.Types{})
+			if err != nil {
+				return fmt.Errorf("Unpack (custom file registry, empty type registry) of a packed %s failed: %v", full, err)
+			}
+			if u4.ProtoReflect().Descriptor() != cmd {
+				return fmt.Errorf("Unpack through a custom file registry did not build the message from that registry's descriptor for %s (fields: %d, registry's descriptor has %d)", full, u4.ProtoReflect().Descriptor().Fields().Len(), cmd.Fields().Len())
+			}
+			b4, _ := det.Marshal(u4)
+			if !bytes.Equal(b4, b1) {
+				return fmt.Errorf("Unpack through a custom file registry yields different bytes")
+			}
+			ctx.Label("pack: custom file registry path")
+		}
 		u3, err := anyutil.Unpack(a, protoregistry.GlobalFiles, protoregistry.GlobalTypes)
 		if err != nil || model.Canon(u3.ProtoReflect(), model.Same) != wantCanon {
 			return fmt.Errorf("Unpack (explicit global resolvers) differs (err=%v)", err)
@@ -344,4 +361,61 @@ func checkC16(ctx *Ctx, c *Case) error {
 		return fmt.Errorf("HARNESS: unknown sub %q", c.Sub)
 	}
 	return nil
+}
+
+type fallbackResolver struct {
+	first  *protoregistry.Files
+	second protodesc.Resolver
+}
+
+func (r fallbackResolver) FindFileByPath(p string) (protoreflect.FileDescriptor, error) {
+	if fd, err := r.first.FindFileByPath(p); err == nil {
+		return fd, nil
+	}
+	return r.second.FindFileByPath(p)
+}
+
+func (r fallbackResolver) FindDescriptorByName(n protoreflect.FullName) (protoreflect.Descriptor, error) {
+	if d, err := r.first.FindDescriptorByName(n); err == nil {
+		return d, nil
+	}
+	return r.second.FindDescriptorByName(n)
+}
+
+var customFilesCache = map[protoreflect.FullName]*protoregistry.Files{}
+
+// customFilesFor builds a file registry that holds md's file with one extra
+// field added to md (number 536870000), so its descriptor for md's name is
+// distinguishable from the global one. Top-level messages only.
+func customFilesFor(md protoreflect.MessageDescriptor) (*protoregistry.Files, protoreflect.MessageDescriptor) {
+	if _, nested := md.Parent().(protoreflect.MessageDescriptor); nested || md.Fields().ByNumber(536870000) != nil {
+		return nil, nil
+	}
+	name := md.FullName()
+	reg, ok := customFilesCache[name]
+	if !ok {
+		fdp := protodesc.ToFileDescriptorProto(md.ParentFile())
+		for _, mp := range fdp.MessageType {
+			if mp.GetName() == string(md.Name()) {
+				mp.Field = append(mp.Field, &descriptorpb.FieldDescriptorProto{
+					Name: proto.String("verif_extra"), Number: proto.Int32(536870000), JsonName: proto.String("verifExtra"),
+					Label: descriptorpb.FieldDescriptorProto_LABEL_OPTIONAL.Enum(), Type: descriptorpb.FieldDescriptorProto_TYPE_STRING.Enum(),
+				})
+			}
+		}
+		reg = &protoregistry.Files{}
+		fd, err := protodesc.NewFile(fdp, fallbackResolver{reg, protoregistry.GlobalFiles})
+		if err != nil || reg.RegisterFile(fd) != nil {
+			reg = nil
+		}
+		customFilesCache[name] = reg
+	}
+	if reg == nil {
+		return nil, nil
+	}
+	d, err := reg.FindDescriptorByName(name)
+	if err != nil {
+		return nil, nil
+	}
+	return reg, d.(protoreflect.MessageDescriptor)
 }
